@@ -85,6 +85,7 @@ func c15Gen(tier string, emit func(c15Case)) {
 			// a later route that has one of the values as literal text where the template has its first variable
 			if strings.Count(t, "{") >= 2 {
 				emit(c15Case{Kind: "build", Template: t, Style: st, Reg: "literal-decoy-after"})
+				emit(c15Case{Kind: "build", Template: t, Style: st, Reg: "literal-decoy-after-listed"})
 			}
 		}
 	}
@@ -299,7 +300,7 @@ func c15Run(c c15Case, st *fw.Stats) []fw.Viol {
 	default:
 		r.AddNamed("target", c.Template, th, "GET")
 	}
-	if c.Reg == "literal-decoy-after" {
+	if strings.HasPrefix(c.Reg, "literal-decoy-after") {
 		// a LATER route of the same method that spells the first variable of the template as a literal (one of the
 		// values) and keeps the other variables: the named route was registered first and still wins
 		first := true
@@ -352,6 +353,15 @@ func c15Run(c c15Case, st *fw.Stats) []fw.Viol {
 		}
 		pre(0)
 		r.AddNamed("target", c.Template, th, "GET")
+	}
+	if c.Reg == "literal-decoy-after-listed" {
+		// the route table is listed (read-only calls) between registration and the requests
+		_ = try(func() {
+			_ = r.Routes()
+			r.IterateRoutes(func(*rux.Route) {})
+			_ = r.NamedRoutes()
+			_ = r.String()
+		})
 	}
 	target := r.GetRoute("target")
 	vals := make([]string, len(defs))
@@ -437,6 +447,17 @@ func c15Run(c c15Case, st *fw.Stats) []fw.Viol {
 					u = r.BuildRequestURL("target", b)
 				}
 			})
+			if pv == nil && c.Style == "map" && len(m) > 0 {
+				// the argument map stays the caller's: unchanged by the call, and a second call with it builds the same URL
+				var u2 *url.URL
+				pv2 := try(func() { u2 = r.BuildURL("target", m) })
+				if pv2 != nil || u2 == nil || u2.String() != u.String() {
+					add("build:second-call-differs", fmt.Sprintf("%s: BuildURL built %q, a second call with the same M value built %v (panic: %v)", desc, u.String(), u2, pv2))
+				}
+				if len(m) != len(defs)+len(extra) {
+					add("build:argument-map-changed", fmt.Sprintf("%s: after BuildURL the caller's M value holds %d entries, it was given with %d", desc, len(m), len(defs)+len(extra)))
+				}
+			}
 			if pv != nil {
 				if c.Style == "pairs" && len(args) == 0 {
 					continue
@@ -514,7 +535,7 @@ func c15Run(c c15Case, st *fw.Stats) []fw.Viol {
 var c15Spec = fw.Spec[c15Case]{
 	ID:    "C15",
 	Level: "model_checking",
-	Rule: "complete product: 24 named templates (static - also with '#', '?', '%25', ';', '&' and blanks in the literal text -, leading variable next to dynamic decoys whose literal first segment is one of the values, default / custom / global variable regexes, 1-3 variables, literal prefix and suffix around a variable, '.' in the literal text - also more dots than the shortest values have bytes) x ALL value tuples over 19 values (spaces, non-ASCII, %, ?, #, ;, encoded slash, dots, slash where the regex admits it) that satisfy the variables' regexes x 4 argument styles (M map, key/value pairs, BuildRequestURL builder, one builder object reused across routes) x 10 registrations (inside a group mounted at the site root; on a StrictLastSlash router with the template ending in a slash next to its slash-less sibling; on a caching router next to a second named route of the same template that serves HEAD, every URL asked with HEAD first; followed by a later route that spells the template's first variable as a literal equal to one of the values; on a caching router with two cache slots, every URL built and requested in two passes; on a caching router that answered 'no route' for every URL before the route existed; top-level AddNamed; NewNamedRoute + ToURL() + AddRoute inside a group; named after registration with NamedTo; after a POST route with the same skeleton and variable names but other variable regexes) x 4-6 sets of extra query arguments (also keys spelled like a variable of the route); " +
+	Rule: "complete product: 24 named templates (static - also with '#', '?', '%25', ';', '&' and blanks in the literal text -, leading variable next to dynamic decoys whose literal first segment is one of the values, default / custom / global variable regexes, 1-3 variables, literal prefix and suffix around a variable, '.' in the literal text - also more dots than the shortest values have bytes) x ALL value tuples over 19 values (spaces, non-ASCII, %, ?, #, ;, encoded slash, dots, slash where the regex admits it) that satisfy the variables' regexes x 4 argument styles (M map - built twice from the same map value, which must stay unchanged -, key/value pairs, BuildRequestURL builder, one builder object reused across routes) x 11 registrations (the literal-decoy registration followed by read-only listings of the route table - Routes, IterateRoutes, NamedRoutes, String - before the first request; inside a group mounted at the site root; on a StrictLastSlash router with the template ending in a slash next to its slash-less sibling; on a caching router next to a second named route of the same template that serves HEAD, every URL asked with HEAD first; followed by a later route that spells the template's first variable as a literal equal to one of the values; on a caching router with two cache slots, every URL built and requested in two passes; on a caching router that answered 'no route' for every URL before the route existed; top-level AddNamed; NewNamedRoute + ToURL() + AddRoute inside a group; named after registration with NamedTo; after a POST route with the same skeleton and variable names but other variable regexes) x 4-6 sets of extra query arguments (also keys spelled like a variable of the route); " +
 		"each built URL is matched (Match on u.Path) and requested (ServeHTTP on a request parsed from u.String()); naming: all sequences of <=3 (thorough 4) naming operations over 2 names x {AddNamed, NewNamedRoute+AddRoute, route.NamedTo on a new route, NamedTo renaming the first / the previous route}; non-trivial = a template with variables / a sequence of >=2 naming operations",
 	Assume: []string{"values containing '{' or '}' are excluded: Build substitutes in Go map order, which the harness cannot own", "routes without optional parts, as the statement says", "value tuples that spell a path which is not in normal form (white space or '/' at the very end) are skipped: path normalisation (C11) ignores those characters by design"},
 	Bounds: func(tier string) map[string]any {
